@@ -199,13 +199,20 @@ def input_handling(func):
         # pop kwargs used for naming
         suffix = kwargs.pop("suffix", "")
 
-        # rename all input dims to unique names to avoid conflicts in xr.apply_ufunc
+        # rename all input dims to unique names to avoid conflicts in xr.apply_ufunc;
+        # the temporary names must differ from every dimension the inputs already have
+        taken = set(phi.dims) | set(theta.dims) | set(target_theta_levels.dims)
         temp_dim = "temp_dim_target"
+        while temp_dim in taken:
+            temp_dim = "_" + temp_dim
+        taken.add(temp_dim)
         target_theta_levels = target_theta_levels.rename({target_dim: temp_dim})
 
         # The phi_dim doesnt matter for the final product, so just rename to
         # # something unique to avoid conflicts in apply_ufunc
         temp_dim2 = "temp_unique"
+        while temp_dim2 in taken:
+            temp_dim2 = "_" + temp_dim2
         phi = phi.rename({phi_dim: temp_dim2})
 
         # Execute function with temporary names
